@@ -44,7 +44,7 @@ def check(ctx):
         "compared inside Coq; Qhull's answer validated against the verified `corners`); independently the exact slice polygon is "
         "recomputed from the case and compared with the returned vertices (set equality within 1e-7, feasibility, counter-"
         "clockwise order, ValueError iff empty or unset). non-trivial = every case; distinct by generated case")
-    proved = ctx.prove("props/C18.v", ["proofs/PlotsFacts.v"])
+    proved = ctx.prove("props/C18.v", ["proofs/PlotsFacts.v", "proofs/PlotsGenSubstitute.v", "proofs/PlotsGenVertices.v", "proofs/PlotsGenBounding.v", "proofs/PlotsGenFacts.v"])
     ctx.build(["model/Plots.vo"])
     n = (200 if ctx.quick else 20000) * (1 if proved else 3)
     summary, (cases, recs, digs) = pc.selftest(n, ctx.seed + 18, verbose=False)
